@@ -192,6 +192,7 @@ def events_of(c, out, rc, itmax, eeps, seps):
 
 # ---- the check -------------------------------------------------------------------------------------------------------
 def run(ctx):
+    ctx.build("mfront", "mtest", "MFrontProfiling")
     libp = ms.build_probe(ctx)
     with cf.ThreadPoolExecutor(max_workers=1) as ex:        # the nonlinear behaviours compile while TLC works
         fut = ex.submit(build_nonlinear, ctx)
@@ -368,7 +369,10 @@ def run(ctx):
     sub = [c for c in cases if c["prob"] == "plast" and c["fault"] == "none" and c["rdm"] == "ToNearest" and c["ks"] == "default"
            and c["maxsub"] == 0 and c["dyn"] == 0 and c["kt"] in ("Elastic", "ConsistentTangentOperator")]
     if not ctx.thorough:
-        sub = [c for c in sub if c["kt"] == "Elastic" or c["acc"]["name"] == "none" or c["pol"] != "NoPrediction"]
+        # every way of asking for every algorithm with the elastic operator (many iterations, failed attempts), every policy
+        # without acceleration, every algorithm after an elastic prediction
+        sub = [c for c in sub if (c["pol"] == "NoPrediction" and c["kt"] == "Elastic") or c["acc"]["name"] == "none"
+               or (c["pol"] == "ElasticPrediction" and not c["acc"]["params"])]
     td = ctx.path("trace")
     os.makedirs(td, exist_ok=True)
 
@@ -380,16 +384,15 @@ def run(ctx):
         return c, events_of(c, r.stdout or "", r.returncode, ITMAX_TRACE, EEPS, SEPS), r.returncode, d
     with cf.ThreadPoolExecutor(max_workers=14) as ex:
         traces = list(ex.map(tr, sub))
-    nev = ntr = 0
+    nev = sum(len(ev) for _, ev, _, _ in traces)
+    ntr = len(traces)
     kinds = set()
     cfgtxt = open(os.path.join(core.SPEC, "mtest/MTestNewtonTrace.cfg")).read()
-    for j in range(0, len(traces), 30):
-        chunk = traces[j:j + 30]
+    for j in range(0, len(traces), 60):
+        chunk = traces[j:j + 60]
         while chunk:
             events = [e for _, ev, _, _ in chunk for e in ev]
             v = validate_trace(ctx, "mtest/MTestNewtonTrace", cfgtxt, events, name="newton")
-            nev += len(events)
-            ntr += len(chunk)
             kinds |= {e["e"] for e in events}
             if v["accepted"]:
                 break
